@@ -678,7 +678,7 @@ def _is(x, d):
     return isinstance(x, dict) and x.get('k') == 'ref' and x.get('d') == d
 
 
-def prop_list_rules(fx, g, v, tag):
+def prop_list_rules(fx, g, v, tag, prop='C18'):
     first, last, attr = _param(g, 'first'), _param(g, 'last'), _param(g, 'attr')
     D = defs_of(g)
     where = g.file
@@ -712,7 +712,7 @@ def prop_list_rules(fx, g, v, tag):
                 ok1 = True
     v.check(ok1, 'R-FLOW', 'prop_parser<%s>:absent-length' % tag,
             'an exhausted packet at the property length position yields the empty property list (tested before the length is read)',
-            key='C18:R-FLOW:prop_parser:%s:absent-length' % tag, where=where)
+            key=prop + ':R-FLOW:prop_parser:%s:absent-length' % tag, where=where)
     # P2 the length read by varint_ from the cursor bounds the list: scoped_last = cursor + length
     c = vi[0][2]
     a = c.get('args', [])
@@ -727,7 +727,7 @@ def prop_list_rules(fx, g, v, tag):
         if isinstance(i0, dict) and i0.get('k') == 'call' and i0.get('op') == '+' and _is(i0['args'][0], cur) and _is(unwrap_casts(i0['args'][1]), len_d):
             sl = d
     v.check(ok2 and sl is not None, 'R-FLOW', 'prop_parser<%s>:list-end' % tag,
-            'the end of the list is the cursor after the length field plus the declared length', key='C18:R-FLOW:prop_parser:%s:list-end' % tag, where=where)
+            'the end of the list is the cursor after the length field plus the declared length', key=prop + ':R-FLOW:prop_parser:%s:list-end' % tag, where=where)
     # P3 loop while cursor < list end; leaving the loop commits the cursor and succeeds
     ok3 = False
     for b in g.blocks:
@@ -744,7 +744,7 @@ def prop_list_rules(fx, g, v, tag):
             rets = [x for x in els if isinstance(x, dict) and x.get('k') == 'ret']
             ok3 = bool(commits) and bool(rets) and constval(rets[0].get('e')) == 1 and ao[0][0] in _reach(g, blk.succ[0])
     v.check(ok3, 'R-FLOW', 'prop_parser<%s>:loop' % tag, 'properties are read until the declared end; then the cursor is committed and the list accepted',
-            key='C18:R-FLOW:prop_parser:%s:loop' % tag, where=where)
+            key=prop + ':R-FLOW:prop_parser:%s:loop' % tag, where=where)
     # P4 identifier: *cursor++ handed to apply_on of the attribute
     c = ao[0][2]
     a = c.get('args', [])
@@ -755,7 +755,7 @@ def prop_list_rules(fx, g, v, tag):
         ok4 = contains(init, lambda n: n.get('k') == 'call' and n.get('op') == '*' and contains(
             n, lambda m: m.get('k') == 'call' and m.get('op') == '++' and len(m.get('args', [])) == 2 and _is(m['args'][0], cur)))
     v.check(ok4, 'R-FLOW', 'prop_parser<%s>:identifier' % tag, 'the identifier is the byte at the cursor (consumed) and selects the member of THIS property class',
-            key='C18:R-FLOW:prop_parser:%s:identifier' % tag, where=where)
+            key=prop + ':R-FLOW:prop_parser:%s:identifier' % tag, where=where)
     # P5 the value is parsed from the shared cursor, bounded by the list end, into the selected member
     lam = strip(a[1]) if len(a) > 1 else None
     ok5, n5 = False, 0
@@ -783,10 +783,10 @@ def prop_list_rules(fx, g, v, tag):
         ok5 = ok5 and n5 > 0 and byref
     v.check(ok5, 'R-FLOW', 'prop_parser<%s>:value' % tag,
             'each value is parsed from the shared cursor (captured by reference), within the list, into the selected member; the outcome is reported back (%d member types)' % n5,
-            key='C18:R-FLOW:prop_parser:%s:value' % tag, where=where)
+            key=prop + ':R-FLOW:prop_parser:%s:value' % tag, where=where)
     # P6 a failed value or an identifier that is not in the class rejects the packet
     ok6, why6 = unknown_id_rejected(fx, g, cur, sl, ao[0], lam)
-    v.check(ok6, 'R-FLOW', 'prop_parser<%s>:reject' % tag, why6, key='C18:R-FLOW:prop_parser:%s:reject' % tag, where=where)
+    v.check(ok6, 'R-FLOW', 'prop_parser<%s>:reject' % tag, why6, key=prop + ':R-FLOW:prop_parser:%s:reject' % tag, where=where)
 
 
 def unknown_id_rejected(fx, g, cur, sl, ao, lam):
@@ -919,3 +919,20 @@ def short_form_rule(fx, v, prop):
             raise AnalysisBroken('%s not instantiated' % dn)
         rl = [p_ for p_ in f.params if p_['n'] == 'remain_length']
         short_form_check(f, dn, rl, v, f.file, prop)
+
+
+def prop_parser_rules(fx, v, prop, classes=None):
+    """the property-list parser rules for the given property classes (shared with C14: SUBACK/UNSUBACK reason codes follow
+    the property list, so a value that runs past the list end swallows them; and with C19)"""
+    pps = [g for g in fx.fns if g.cls == 'prop_parser' and g.n == 'parse' and not g.lam]
+    if not pps:
+        raise AnalysisBroken('prop_parser::parse not instantiated')
+    seen = set()
+    for g in pps:
+        tag = (g.ct[0].get('cls') if g.ct else None) or g.inst
+        if tag in seen or (classes is not None and tag not in classes):
+            continue
+        seen.add(tag)
+        prop_list_rules(fx, g, v, str(tag), prop)
+    if classes is not None and set(classes) - seen:
+        raise AnalysisBroken('prop_parser not instantiated for %s' % sorted(set(classes) - seen))
